@@ -99,6 +99,17 @@ package memory
 //@ requires wf(s) && !held(s.mu)
 //@ ensures [wf] wf(s) && !held(s.mu)
 
+//@ func (*memoryStore).GetAccountNodes
+//@ property C10 C12 C15
+//@ safety on
+//@ implements store.AccountStore.GetAccountNodes
+//@ requires wf(s) && !held(s.mu)
+//@ ensures [wf] wf(s) && !held(s.mu)
+//@ ensures [never-fails] {C12} err == nil
+//@ loop 0 invariant [lock]     held(s.mu) && wf(s)
+//@ loop 0 invariant [members]  forall p int :: off(r) <= p && p < off(r) + len(r) ==> has(s.accounts, elems(r)[p]) && s.accounts[elems(r)[p]] == account
+//@ loop 0 invariant [complete] forall k store.NodeID :: visited[k] && has(s.accounts, k) && s.accounts[k] == account ==> store.hasID(r, k)
+
 //@ func (*memoryStore).GetNode
 //@ property C10 C12
 //@ implements store.PoolStore.GetNode
